@@ -558,8 +558,18 @@ def generate_hash_wrapper(cl: ClassIR, fn: FuncIR, emitter: Emitter) -> str:
     emitter.emit_error_check("retval", fn.ret_type, "return -1;")
     if is_int_rprimitive(fn.ret_type):
         emitter.emit_line("Py_ssize_t val = CPyTagged_AsSsize_t(retval);")
+        is_long = "CPyTagged_CheckLong(retval)"
+        long_obj = "CPyTagged_LongAsObject(retval)"
     else:
         emitter.emit_line("Py_ssize_t val = PyLong_AsSsize_t(retval);")
+        is_long = "PyLong_Check(retval)"
+        long_obj = "retval"
+    # Like CPython, reduce an int that doesn't fit in Py_ssize_t with int's own
+    # hash instead of failing with OverflowError.
+    emitter.emit_line(f"if (unlikely(val == -1 && {is_long} && PyErr_Occurred())) {{")
+    emitter.emit_line("    PyErr_Clear();")
+    emitter.emit_line(f"    val = PyLong_Type.tp_hash({long_obj});")
+    emitter.emit_line("}")
     emitter.emit_dec_ref("retval", fn.ret_type)
     emitter.emit_line("if (PyErr_Occurred()) return -1;")
     # We can't return -1 from a hash function..
